@@ -13,6 +13,7 @@ A *history* is a list of segment specs (plain dicts, JSON-friendly):
   enc is one of
      ['FULL', type_name, n]            fixed-width type, n values per chunk
      ['FULL', 'String', n, B]          n strings per chunk, B bytes of text per chunk
+     ['FULL', 'String', n, B, [hex..]] the same with explicit values (hex of the UTF-8 bytes)
      ['SAME']                          raw data index "matches previous" (0x00000000)
      ['NODATA']                        no raw data (0xFFFFFFFF)
      ['DAQMX', {...}]                  DAQmx raw data index, see daqmx_index()
@@ -192,7 +193,11 @@ def idx_of(enc):
     if enc[0] == 'FULL':
         t, n = enc[1], enc[2]
         if t == 'String':
-            return {'k': 'std', 't': t, 'n': n, 'B': enc[3] if len(enc) > 3 else 3 * n + 1 if n else 0}
+            d = {'k': 'std', 't': t, 'n': n, 'B': enc[3] if len(enc) > 3 else 3 * n + 1 if n else 0}
+            if len(enc) > 4:   # explicit values (hex of the UTF-8 bytes), the same in every chunk
+                d['vals'] = list(enc[4])
+                assert len(d['vals']) == n and sum(len(v) // 2 for v in d['vals']) == d['B'], 'explicit string values do not match n / B'
+            return d
         return {'k': 'std', 't': t, 'n': n}
     if enc[0] == 'DAQMX':
         d = dict(enc[1])
@@ -358,7 +363,9 @@ def interpret(history, seed=0, lenient=False, filler_phase=0):
             else:
                 for path, idx in data_objs:
                     k = counters.get(path, 0)
-                    if idx['t'] == 'String':
+                    if idx['t'] == 'String' and 'vals' in idx:
+                        vals = [bytes.fromhex(v) for v in idx['vals']]
+                    elif idx['t'] == 'String':
                         vals = string_values(idx['n'], idx['B'], path, k, seed)
                     else:
                         vals = [fixed_value(idx['t'], path, k + j, seed) for j in range(idx['n'])]
